@@ -13,7 +13,7 @@ from vlib.vtsched import EXC_TYPES, VTModel, clock_of, enc_abs, enc_rel, escaped
 PROPERTY_ID = "C42"
 LEVEL = "fault_enumeration"
 RULE = (
-    "Generated forests (1..4 roots, 3 levels quick / 4 thorough, <= 3 ops per node) of actions scheduled on CatchScheduler(TestScheduler): "
+    "Generated forests (1..4 roots, 3 levels quick / 4 thorough, <= 3 ops per node) of actions scheduled on CatchScheduler over a TestScheduler, HistoricalScheduler or VirtualTimeScheduler(0) (field 'inner'): "
     "every node is scheduled with schedule / schedule_relative / schedule_absolute / schedule_periodic (roots on the outer "
     "CatchScheduler, children through the scheduler handed to the parent action or - 'outer' - through the outer "
     "CatchScheduler; int/float/timedelta/datetime time arguments); a node's program schedules its children and may raise "
@@ -24,12 +24,12 @@ RULE = (
     "start(), in order, as the same objects, nothing else escapes; (3) the invocation log [node, clock(, periodic state)] "
     "equals the model's - in particular no periodic tick after a raise, whatever the verdict; (4) differential: the same "
     "forest with all raises removed gives the same log on CatchScheduler as on the bare TestScheduler and never calls the "
-    "handler. Non-trivial: a raise actually executed at depth >= 1 (inside an action scheduled from an action) or inside "
+    "handler; (5) the wrapped scheduler runs exactly one item per modelled invocation (a counting subclass of the inner scheduler): a stopped periodic action leaves no live timer behind. Periodic nodes live up to 12 ticks and may schedule children from inside a tick (through the scheduler captured at creation or the outer one; immediately or after less than one period). Non-trivial: a raise actually executed at depth >= 1 (inside an action scheduled from an action) or inside "
     "a periodic action. Part of the forests are built with >= 2 periodic actions alive together on one CatchScheduler (roots, or siblings created through one handed scheduler) so that one raises while another still ticks - the survivor must tick on exactly as modelled. Every run is fused: a harness action at a statically computed horizon stops the inner scheduler, so never-ending periodic work gives a verdict, not a hang. Distinct = distinct case JSON."
 )
 ASSUMPTIONS = [
     "inner scheduler is a virtual-time TestScheduler (actions never run synchronously inside schedule*), per the property's quantifier",
-    "every periodic node disposes itself after at most 5 ticks (a run must finish); periodic actions have no children (they receive no scheduler)",
+    "every periodic node disposes itself after at most 12 ticks (a run must finish); children scheduled from inside a periodic action are due before that action's next tick (a tie with the next tick is not ordered by the property)",
     "after an exception escaped start(), the run is resumed with stop() + start(); the ordering/clock behaviour of the inner scheduler is C28's subject and taken from the same model",
 ]
 
@@ -44,6 +44,8 @@ def _walk(nodes, depth=0):
         for op in n.get("ops", ()):
             if op[0] == "child":
                 yield from _walk([op[1]], depth + 1)
+        for _tick, kid in n.get("kids", ()):
+            yield from _walk([kid], depth + 1)
 
 
 def _strip_raises(nodes):
@@ -65,10 +67,33 @@ def _number(nodes):
 
 
 # ------------------------------------------------------------------------------------------------- real execution
-def _execute(nodes, verdicts, wrapped):
-    """Run the forest on CatchScheduler(TestScheduler) (wrapped=True) or on the bare TestScheduler.
-    Returns dict(log, handled, escapes, raised, runaway)."""
-    inner = make("test")
+class _Counting:
+    """Inner scheduler that counts the actions it actually invokes (TestScheduler.start()'s own three harness actions
+    and the fuse excluded) - a stopped periodic action must not leave a live timer behind on the wrapped scheduler."""
+
+    def schedule_absolute(self, duetime, action, state=None):
+        if getattr(action, "__name__", "") in ("action_create", "action_subscribe", "action_dispose") or getattr(action, "is_fuse", False):
+            return super().schedule_absolute(duetime, action, state)
+
+        def counted(s, st_=None):
+            self.inner_runs += 1
+            return action(s, st_)
+
+        return super().schedule_absolute(duetime, counted, state)
+
+
+def _make_inner(K):
+    base = make(K)
+    cls = type("Counting" + type(base).__name__, (_Counting, type(base)), {})
+    inner = cls() if K != "vts" else cls(0)
+    inner.inner_runs = 0
+    return inner
+
+
+def _execute(nodes, verdicts, wrapped, K="test"):
+    """Run the forest on CatchScheduler(<virtual-time scheduler K>) (wrapped=True) or on the bare scheduler.
+    Returns dict(log, handled, escapes, raised, runaway, fused, inner_runs)."""
+    inner = _make_inner(K)
     handled, escapes, raised = [], [], {}
     log = []
 
@@ -93,18 +118,21 @@ def _execute(nodes, verdicts, wrapped):
                 count[0] += 1
                 if count[0] > node["stop_at"] + 2 or count[0] > (node["raise_at"] or 99):
                     raise _Runaway(f"p{nid} tick {count[0]}")
-                log.append([nid, clock_of("test", inner), state])
+                log.append([nid, clock_of(K, inner), state])
+                for tick, kid in node.get("kids", ()):
+                    if tick == count[0]:  # work scheduled from inside the periodic action, through the scheduler captured at creation
+                        schedule(kid, sched if kid.get("via", "handed") == "handed" else outer)
                 if count[0] == node["raise_at"]:
                     boom(f"p{nid}.{count[0]}", node.get("exc"))
                 if count[0] >= node["stop_at"]:
                     disps[nid].dispose()
                 return state + 1
 
-            disps[nid] = sched.schedule_periodic(enc_rel("test", t, form), paction, state=10 * nid)
+            disps[nid] = sched.schedule_periodic(enc_rel(K, t, form), paction, state=10 * nid)
             return
 
         def action(scheduler, state=None):
-            log.append([nid, clock_of("test", inner)])
+            log.append([nid, clock_of(K, inner)])
             for op in node["ops"]:
                 if op[0] == "raise":
                     boom(f"n{nid}", node.get("exc"))
@@ -114,9 +142,9 @@ def _execute(nodes, verdicts, wrapped):
         if how == "now":
             sched.schedule(action)
         elif how == "rel":
-            sched.schedule_relative(enc_rel("test", t, form), action)
+            sched.schedule_relative(enc_rel(K, t, form), action)
         else:
-            sched.schedule_absolute(enc_abs("test", t, form), action)
+            sched.schedule_absolute(enc_abs(K, t, form), action)
 
     for n in nodes:
         schedule(n, outer)
@@ -125,7 +153,12 @@ def _execute(nodes, verdicts, wrapped):
     # never ends (e.g. a muted action that can no longer dispose itself) yields a verdict instead of a hang.
     horizon = _horizon(nodes)
     fused = []
-    inner.schedule_absolute(enc_abs("test", horizon, "num"), lambda s, st_=None: (fused.append(1), inner.stop()))
+    def fuse(s, st_=None):
+        fused.append(1)
+        inner.stop()
+
+    fuse.is_fuse = True
+    inner.schedule_absolute(enc_abs(K, horizon, "num"), fuse)
     runaway = None
     for _ in range(len(list(_walk(nodes))) + 3):
         if fused:
@@ -138,7 +171,7 @@ def _execute(nodes, verdicts, wrapped):
         except Exception as ex:  # noqa: BLE001 - whatever escapes start() is recorded and judged by the oracle
             escapes.append(ex)
             inner.stop()
-    return {"log": log, "handled": handled, "escapes": escapes, "raised": raised, "runaway": runaway, "fused": bool(fused)}
+    return {"log": log, "handled": handled, "escapes": escapes, "raised": raised, "runaway": runaway, "fused": bool(fused), "inner_runs": inner.inner_runs}
 
 
 def _horizon(nodes):
@@ -160,8 +193,8 @@ class _Escape(Exception):
         self.tag = tag
 
 
-def _model(nodes, verdicts):
-    m = VTModel("test")
+def _model(nodes, verdicts, K="test"):
+    m = VTModel(K)
     log, handled, escapes = [], [], []
     info = {"deep_raise": 0, "periodic_raise": 0, "raise": 0}
 
@@ -208,6 +241,10 @@ def _model(nodes, verdicts):
         else:
             _, node, k, state = p
             log.append([node["id"], m.clock, state])
+            for tick, kid in node.get("kids", ()):
+                if tick == k:
+                    info["periodic_kids"] = 1
+                    schedule(kid)
             if k == node["raise_at"]:
                 live.discard(node["id"])
                 raise_(f"p{node['id']}.{k}", node)
@@ -235,9 +272,11 @@ def _run(case):
     nodes = _number(copy.deepcopy(case["roots"]))
     verdicts = case["verdicts"]
     cls = []
-    exp = _model(nodes, verdicts)
+    K = case.get("inner", "test")
+    cls.append("inner:" + K)
+    exp = _model(nodes, verdicts, K)
     try:
-        got = _execute(nodes, verdicts, wrapped=True)
+        got = _execute(nodes, verdicts, wrapped=True, K=K)
     except Exception as e:  # noqa: BLE001 - schedule* itself must not raise
         return escaped(e, "CatchScheduler.schedule*", f"case={case}")
     info = exp["info"]
@@ -249,6 +288,10 @@ def _run(case):
         cls.append("raise-in-periodic")
     for t in sorted(info.get("exc_types", ())):
         cls.append("raised:" + t)
+    if info.get("periodic_kids"):
+        cls.append("periodic-action-schedules-children")
+    if any(n["how"] == "per" and n["stop_at"] > 5 for n, _ in _walk(nodes)):
+        cls.append("periodic-lifetime>5-ticks")
     if info.get("overlap"):
         cls.append("periodic-raise-while-another-periodic-live")
     if info.get("survivor_tick"):
@@ -290,10 +333,15 @@ def _run(case):
         e = exp["log"][i] if i < len(exp["log"]) else None
         per = any(len(x) == 3 for x in (r, e) if x)
         return FAIL(f"action-log|{'periodic' if per else 'action'}", f"log differs at #{i}: real={r} model={e} case={case}", classes=cls)
+    if got["inner_runs"] != len(exp["log"]):
+        # every scheduled action / periodic tick is one item run by the wrapped scheduler; more means that work which
+        # should have stopped (disposed or failed periodic action) still keeps a live timer on the wrapped scheduler
+        more = "keeps-running-stopped-work" if got["inner_runs"] > len(exp["log"]) else "ran-fewer-items"
+        return FAIL(f"wrapped-scheduler-{more}|periodic", f"wrapped scheduler ran {got['inner_runs']} items, {len(exp['log'])} invocations expected; case={case}", classes=cls)
     # differential: no raise => CatchScheduler is transparent
     plain = _strip_raises(nodes)
-    a = _execute(plain, verdicts, wrapped=True)
-    b = _execute(plain, verdicts, wrapped=False)
+    a = _execute(plain, verdicts, wrapped=True, K=K)
+    b = _execute(plain, verdicts, wrapped=False, K=K)
     if a["handled"] or a["escapes"] or b["escapes"] or a["runaway"] or b["runaway"]:
         return FAIL("differential-handler-called-without-raise|action", f"handled={a['handled']} escapes={a['escapes']} case={case}", classes=cls)
     if a["log"] != b["log"]:
@@ -308,26 +356,49 @@ _T = st.one_of(st.sampled_from([0, 1, 1, 2, 3]), st.integers(0, 8))
 _EXC = st.sampled_from(EXC_TYPES + ("type", "type"))  # type of the exception the node raises (if it raises)
 
 
-def _periodic():
+def _kid(depth):
+    """A child scheduled from inside a periodic action: immediately or after less than one period (a delay of a whole
+    period would tie with the action's own next tick, an order the property does not determine)."""
+    return st.tuples(st.integers(1, 12), _node(depth), st.integers(0, 3)).map(
+        lambda t: [t[0], dict(t[1], how="now" if t[1]["how"] == "abs" else t[1]["how"], t=t[2], form=None if t[1]["how"] in ("abs", "now") else t[1]["form"])]
+    )
+
+
+def _periodic(kid_depth=None):
+    kids = st.just([]) if kid_depth is None else st.one_of(st.just([]), st.lists(_kid(kid_depth), min_size=1, max_size=2))
     return st.fixed_dictionaries(
         {
             "how": st.just("per"),
             "t": st.integers(1, 4),
             "form": st.sampled_from(["num", "int", "td"]),
-            "stop_at": st.integers(1, 5),
-            "raise_at": st.one_of(st.none(), st.integers(1, 5)),
+            "stop_at": st.one_of(st.integers(1, 5), st.integers(1, 5), st.integers(6, 12)),
+            "raise_at": st.one_of(st.none(), st.integers(1, 5), st.integers(1, 12)),
+            "kids": kids,
             "via": st.sampled_from(["handed", "handed", "outer"]),
             "ops": st.just([]),
             "exc": _EXC,
         }
-    ).map(lambda n: dict(n, raise_at=n["raise_at"] if (n["raise_at"] or 9) <= n["stop_at"] else None))
+    ).map(_fix_periodic)
+
+
+def _fix_periodic(n):
+    n = dict(n, raise_at=n["raise_at"] if (n["raise_at"] or 99) <= n["stop_at"] else None)
+    kids = []
+    for tick, kid in n["kids"]:
+        kid = dict(kid)
+        if kid["how"] == "rel":
+            kid["t"] = kid["t"] % n["t"]  # strictly less than one period
+        else:
+            kid["t"] = 0
+        kids.append([1 + (tick - 1) % n["stop_at"], kid])
+    return dict(n, kids=kids)
 
 
 def _node(depth):
     if depth == 0:
         ops = st.lists(st.just(["raise"]), max_size=1)
     else:
-        child = st.tuples(st.just("child"), st.one_of(_node(depth - 1), _node(depth - 1), _periodic())).map(list)
+        child = st.tuples(st.just("child"), st.one_of(_node(depth - 1), _node(depth - 1), _periodic(depth - 1))).map(list)
         ops = st.lists(st.one_of(child, child, child, st.just(["raise"])), max_size=3).map(_one_raise)
     plain = st.one_of(
         st.fixed_dictionaries({"how": st.just("now"), "t": st.just(0), "form": st.none()}),
@@ -354,7 +425,7 @@ def _cases(depth):
     return st.fixed_dictionaries(
         {
             "roots": st.one_of(
-                st.lists(st.one_of(_node(depth), _node(depth), _periodic()), min_size=1, max_size=4),
+                st.lists(st.one_of(_node(depth), _node(depth), _periodic(depth - 1)), min_size=1, max_size=4),
                 # >= 2 periodic actions alive together on one CatchScheduler (plus whatever else)
                 st.tuples(st.lists(_periodic(), min_size=2, max_size=3), st.lists(_node(depth), max_size=2)).map(lambda t: t[0] + t[1]),
                 # ... or created from inside one action through the scheduler handed to it (one shared recursive wrapper)
@@ -363,6 +434,7 @@ def _cases(depth):
                 ),
             ),
             "verdicts": st.lists(st.booleans(), min_size=1, max_size=4),
+            "inner": st.sampled_from(["test", "test", "hist", "vts"]),
         }
     )
 
@@ -373,7 +445,7 @@ def checks(tier):
             "trees",
             _run,
             strategy=_cases(2 if tier == "quick" else 3),
-            examples={"quick": 2500, "thorough": 16 * 10000},
+            examples={"quick": 2000, "thorough": 16 * 8000},
             shards={"quick": 4, "thorough": 16},
         ),
     ]
